@@ -178,6 +178,22 @@ PROPS = {
                                            "requests observe them for the generated announce forms",
                                            "announce URLs without fragment ('#') and with a syntactically valid query"],
     },
+    "C19": {
+        "lean_modules": ["RdestModel.Props.C19"],
+        "cases": {"quick": 2500, "thorough": 60000},
+        "rule": "replies built from a syntax tree: interval missing/negative/wrong type/0..2^63-1; failure reason as UTF-8 string, non-UTF-8 string, "
+                "integer; peers missing, compact string form, list of 0..5 entries each with one of 14 defects (ip/peer id/port missing, wrong type, "
+                "non-UTF-8 ip, 19- and 21-byte ids, negative port, ports 0..2^40, non-dictionary entries, nested list) in shuffled key order; a value or "
+                "a failing dictionary in front; truncations; random strings over the bencode alphabet; compared: error kind or the ordered "
+                "(address:port, id) list of TrackerResp::peers() with the model. One case per run (four in the thorough tier: k = 0, 1, 3 and 12 "
+                "listed peers) is e2e: the real Session::run in a child process against a loopback tracker that fails k times (HTTP 500, garbage, failure "
+                "reason, non-UTF-8 reason, connection closed) before a good reply; observed: number of announces, whether a new connection to the "
+                "listening port gets its handshake answered while announces fail, and handshakes arriving at the listed fake peers; compared with "
+                "the retry model's prediction (manager free in every state, run ends contacted); distinct = distinct argument lines",
+        "assumptions": STD_ASSUME_PURE + ["part 2 (retry protocol) is a hand-abstracted model of tokio::spawn / mpsc / JoinHandle semantics; its only tie to "
+                                           "the runtime is the e2e run (real time, 1 s per failed announce), so T4 is partial with respect to the real scheduler",
+                                           "port 6881 is free on the machine (runs are serialised by a lock file)"],
+    },
     "C20": {
         "lean_modules": ["RdestModel.Props.C20"],
         "cases": {"quick": 400, "thorough": 12000},
